@@ -64,6 +64,10 @@ enum Step {
     Commit(usize), // creation number
     Build(u32),
 }
+enum TStep {
+    One(Step),
+    Fork(Vec<Step>, Vec<Step>),
+}
 
 fn main() {
     jjv::run("C22", "C22", |ctx| {
@@ -82,99 +86,147 @@ fn main() {
             let n_new = rng.range(2, if thorough { 16 } else { 10 }) as usize;
             let mut commits: Vec<Commit> = vec![store.root_commit()];
             let mut parents_of: Vec<Vec<usize>> = vec![vec![]];
-            let mut steps: Vec<Step> = vec![Step::Commit(0)];
+            let mut steps: Vec<TStep> = vec![TStep::One(Step::Commit(0))];
             let mut builds = 0;
             let mut merges = 0;
+            let mut forks = 0;
             let mut k = 0;
-            while k < n_new {
-                // maybe (re)build the changed-path index here
-                if rng.chance(1, 4) {
-                    let maxc = *rng.pick(&[0u32, 0, 1, 2, 3, 5, u32::MAX, u32::MAX - 1]);
-                    let store_impl: &DefaultIndexStore = repo.index_store().downcast_ref().unwrap();
-                    store_impl
-                        .build_changed_path_index_at_operation(repo.op_id(), repo.store(), maxc, |_| ())
-                        .block_on()
-                        .unwrap();
-                    repo = repo.reload_at(repo.operation()).block_on().unwrap();
-                    steps.push(Step::Build(maxc));
-                    builds += 1;
+            // writes one commit whose parents are drawn from `allowed` (creation numbers)
+            let mut make_commit = |rng: &mut jjv::Rng,
+                                   tx: &mut jj_lib::transaction::Transaction,
+                                   commits: &mut Vec<Commit>,
+                                   parents_of: &mut Vec<Vec<usize>>,
+                                   allowed: &[usize],
+                                   merges: &mut usize| {
+                let k = commits.len();
+                let np = if allowed.len() >= 3 && rng.chance(1, 3) { 2 } else { 1 };
+                let mut ps: Vec<usize> = vec![];
+                let mut tries = 0;
+                while ps.len() < np && tries < 20 {
+                    tries += 1;
+                    let p = if rng.chance(1, 8) { allowed[0] } else { *rng.pick(allowed) };
+                    if !ps.contains(&p) {
+                        ps.push(p);
+                    }
                 }
-                let batch = (1 + rng.geometric(3) as usize).min(n_new - k);
-                let mut tx = repo.start_transaction();
-                for _ in 0..batch {
-                    k += 1;
-                    let np = if k >= 3 && rng.chance(1, 3) { 2 } else { 1 };
-                    let mut ps: Vec<usize> = vec![];
-                    let mut tries = 0;
-                    while ps.len() < np && tries < 20 {
-                        tries += 1;
-                        let p = if k == 1 || rng.chance(1, 8) { 0 } else { 1 + rng.usize(k - 1) };
-                        if !ps.contains(&p) {
-                            ps.push(p);
-                        }
-                    }
-                    if ps.len() > 1 {
-                        merges += 1;
-                    }
-                    let pcommits: Vec<Commit> = ps.iter().map(|&p| commits[p].clone()).collect();
-                    let base: MergedTree = merge_commit_trees(tx.repo(), &pcommits).block_on().unwrap();
-                    let mut builder = MergedTreeBuilder::new(base);
-                    let n_edits = match rng.below(8) {
-                        0 => 0, // changes nothing relative to the (merged) parents
-                        1..=4 => 1,
-                        5..=6 => 2,
-                        _ => 3,
-                    };
-                    for _ in 0..n_edits {
-                        let p = rng.usize(PATHS.len());
-                        let set_file = |b: &mut MergedTreeBuilder, p: usize, content: &str| {
-                            let id = testutils::write_file(&store, &path(p), content);
-                            b.set_or_remove(
-                                path(p),
-                                Merge::resolved(Some(TreeValue::File {
-                                    id,
-                                    executable: false,
-                                    copy_id: CopyId::placeholder(),
-                                })),
-                            );
-                        };
-                        if rng.chance(1, 4) {
-                            builder.set_or_remove(path(p), Merge::absent());
-                        } else {
-                            // "d" as a file excludes d/x, d/y and vice versa
-                            if p == 2 {
-                                builder.set_or_remove(path(3), Merge::absent());
-                                builder.set_or_remove(path(4), Merge::absent());
-                            } else if p == 3 || p == 4 {
-                                builder.set_or_remove(path(2), Merge::absent());
-                            }
-                            let content: &str = CONTENTS[rng.usize(CONTENTS.len())];
-                            set_file(&mut builder, p, content);
-                        }
-                    }
-                    let tree = builder.write_tree().block_on().unwrap();
-                    let commit = tx
-                        .repo_mut()
-                        .new_commit(pcommits.iter().map(|c| c.id().clone()).collect(), tree)
-                        .set_description(format!("c{k}"))
-                        .write()
-                        .block_on()
-                        .unwrap();
-                    commits.push(commit);
-                    parents_of.push(ps);
-                    steps.push(Step::Commit(k));
+                if ps.len() > 1 {
+                    *merges += 1;
                 }
-                repo = tx.commit("c22").block_on().unwrap();
-            }
-            if rng.chance(1, 3) {
-                let maxc = *rng.pick(&[0u32, 1, 2, 4, u32::MAX]);
+                let pcommits: Vec<Commit> = ps.iter().map(|&p| commits[p].clone()).collect();
+                let base: MergedTree = merge_commit_trees(tx.repo(), &pcommits).block_on().unwrap();
+                let mut builder = MergedTreeBuilder::new(base);
+                let n_edits = match rng.below(8) {
+                    0 => 0, // changes nothing relative to the (merged) parents
+                    1..=4 => 1,
+                    5..=6 => 2,
+                    _ => 3,
+                };
+                for _ in 0..n_edits {
+                    let p = rng.usize(PATHS.len());
+                    if rng.chance(1, 4) {
+                        builder.set_or_remove(path(p), Merge::absent());
+                    } else {
+                        // "d" as a file excludes d/x, d/y and vice versa
+                        if p == 2 {
+                            builder.set_or_remove(path(3), Merge::absent());
+                            builder.set_or_remove(path(4), Merge::absent());
+                        } else if p == 3 || p == 4 {
+                            builder.set_or_remove(path(2), Merge::absent());
+                        }
+                        let content: &str = CONTENTS[rng.usize(CONTENTS.len())];
+                        let id = testutils::write_file(&store, &path(p), content);
+                        builder.set_or_remove(
+                            path(p),
+                            Merge::resolved(Some(TreeValue::File {
+                                id,
+                                executable: false,
+                                copy_id: CopyId::placeholder(),
+                            })),
+                        );
+                    }
+                }
+                let tree = builder.write_tree().block_on().unwrap();
+                let commit = tx
+                    .repo_mut()
+                    .new_commit(pcommits.iter().map(|c| c.id().clone()).collect(), tree)
+                    .set_description(format!("c{k}"))
+                    .write()
+                    .block_on()
+                    .unwrap();
+                commits.push(commit);
+                parents_of.push(ps);
+            };
+            let build_at = |repo: &Arc<ReadonlyRepo>, maxc: u32| -> Arc<ReadonlyRepo> {
                 let store_impl: &DefaultIndexStore = repo.index_store().downcast_ref().unwrap();
                 store_impl
                     .build_changed_path_index_at_operation(repo.op_id(), repo.store(), maxc, |_| ())
                     .block_on()
                     .unwrap();
-                repo = repo.reload_at(repo.operation()).block_on().unwrap();
-                steps.push(Step::Build(maxc));
+                repo.reload_at(repo.operation()).block_on().unwrap()
+            };
+            while k < n_new {
+                // maybe (re)build the changed-path index here
+                if rng.chance(1, 4) {
+                    let maxc = *rng.pick(&[0u32, 0, 1, 2, 3, 5, u32::MAX, u32::MAX - 1]);
+                    repo = build_at(&repo, maxc);
+                    steps.push(TStep::One(Step::Build(maxc)));
+                    builds += 1;
+                }
+                if forks == 0 && n_new - k >= 2 && rng.chance(1, 4) {
+                    // two concurrent operations from the same state, merged afterwards
+                    forks += 1;
+                    let n0 = commits.len();
+                    let base_allowed: Vec<usize> = (0..n0).collect();
+                    let mut sides: Vec<Vec<Step>> = vec![];
+                    let mut side_repos: Vec<Arc<ReadonlyRepo>> = vec![];
+                    let budget = n_new - k;
+                    let na = 1 + rng.usize((budget - 1).min(2));
+                    let nb = 1 + rng.usize((budget - na).min(2));
+                    for &cnt in &[na, nb] {
+                        let mut tx = repo.start_transaction();
+                        let mut side: Vec<Step> = vec![];
+                        let first_own = commits.len();
+                        for _ in 0..cnt {
+                            let allowed: Vec<usize> =
+                                base_allowed.iter().copied().chain(first_own..commits.len()).collect();
+                            make_commit(&mut rng, &mut tx, &mut commits, &mut parents_of, &allowed, &mut merges);
+                            side.push(Step::Commit(commits.len() - 1));
+                            k += 1;
+                        }
+                        let side_repo = tx.commit("c22 side").block_on().unwrap();
+                        std::thread::sleep(std::time::Duration::from_millis(2));
+                        side_repos.push(side_repo);
+                        sides.push(side);
+                    }
+                    // a side may (re)build the index at its own operation before the merge
+                    for (x, side_repo) in side_repos.iter().enumerate() {
+                        if rng.chance(1, 3) {
+                            let maxc = *rng.pick(&[0u32, 1, 3, u32::MAX]);
+                            build_at(side_repo, maxc);
+                            sides[x].push(Step::Build(maxc));
+                            builds += 1;
+                        }
+                    }
+                    repo = test_repo.env.load_repo_at_head(&settings, test_repo.repo_path());
+                    let b = sides.pop().unwrap();
+                    let a = sides.pop().unwrap();
+                    steps.push(TStep::Fork(a, b));
+                    continue;
+                }
+                let batch = (1 + rng.geometric(3) as usize).min(n_new - k);
+                let mut tx = repo.start_transaction();
+                for _ in 0..batch {
+                    k += 1;
+                    let allowed: Vec<usize> = (0..commits.len()).collect();
+                    make_commit(&mut rng, &mut tx, &mut commits, &mut parents_of, &allowed, &mut merges);
+                    steps.push(TStep::One(Step::Commit(commits.len() - 1)));
+                }
+                repo = tx.commit("c22").block_on().unwrap();
+            }
+            if rng.chance(1, 3) {
+                let maxc = *rng.pick(&[0u32, 1, 2, 4, u32::MAX]);
+                repo = build_at(&repo, maxc);
+                steps.push(TStep::One(Step::Build(maxc)));
                 builds += 1;
             }
             let n = commits.len();
@@ -277,13 +329,21 @@ fn main() {
             let disabled: Vec<Vec<usize>> = matchers.iter().map(|m| eval(plain.as_ref(), m)).collect();
 
             let nl = |v: &[usize]| coq::list(v.iter(), |x| format!("{x}"));
-            let steps_term = coq::list(steps.iter(), |s| match s {
+            let step_term = |s: &Step| match s {
                 Step::Commit(x) => format!(
                     "(CCommit {} {})",
                     coq::list(trees[*x].0.iter(), |v| format!("{v}")),
                     coq::list(trees[*x].1.iter(), |v| format!("{v}"))
                 ),
                 Step::Build(m) => format!("(CBuild {m})"),
+            };
+            let steps_term = coq::list(steps.iter(), |t| match t {
+                TStep::One(s) => format!("(CT {})", step_term(s)),
+                TStep::Fork(a, b) => format!(
+                    "(CF {} {})",
+                    coq::list(a.iter(), |s| step_term(s)),
+                    coq::list(b.iter(), |s| step_term(s))
+                ),
             });
             let term = coq::app(
                 "C22.mk_case",
@@ -299,8 +359,9 @@ fn main() {
             );
             let indexed = stored.iter().filter(|s| s.is_some()).count();
             let shape = format!(
-                "builds={} merges={} conflicts={} indexed={}",
+                "builds={} forks={} merges={} conflicts={} indexed={}",
                 builds.min(3),
+                forks,
                 merges.min(2),
                 (conflicts > 0) as u8,
                 if indexed == 0 { "none" } else if indexed == n { "all" } else { "part" }
